@@ -416,7 +416,7 @@ class VQESolver:
 
         return expectation
 
-    def get_rdm(self, var_params, resample=False, sum_spin=True, ref_state=Circuit()):
+    def get_rdm(self, var_params, resample=False, sum_spin=True, ref_state=None):
         """Compute the 1- and 2- RDM matrices using the VQE energy evaluation.
         This method allows to combine the DMET problem decomposition technique
         with the VQE as an electronic structure solver. The RDMs are computed by
@@ -460,10 +460,15 @@ class VQESolver:
         else:
             qb_freq_dict, qb_expect_dict = dict(), dict()
 
-        # Build state preparation circuit. If noiseless, simulate and save the statevector
+        # Build the state preparation circuit energy_estimation uses (reference override + ansatz + projective circuit).
+        # If noiseless, simulate and save the statevector
+        if ref_state is None:
+            ref_state = self.reference_circuit if self.ref_state is not None else Circuit()
         prep_circuit = ref_state + self.ansatz.circuit
+        if self.projective_circuit:
+            prep_circuit += self.projective_circuit
         if self.backend_options.get("noise_model") is None:
-            _, sv = self.backend.simulate(prep_circuit, return_statevector=True)
+            _, sv = self.backend.simulate(prep_circuit, return_statevector=True, **self.simulate_options)
 
         # Loop over each element of Hamiltonian (non-zero value)
         for key in self.molecule.fermionic_hamiltonian.terms:
@@ -550,7 +555,7 @@ class VQESolver:
 
         return rdm1_spin, rdm2_spin
 
-    def get_rdm_uhf(self, var_params, resample=False, ref_state=Circuit()):
+    def get_rdm_uhf(self, var_params, resample=False, ref_state=None):
         """Compute the 1- and 2- RDM matrices using the VQE energy evaluation.
         This method allows to combine the DMET problem decomposition technique
         with the VQE as an electronic structure solver. The RDMs are computed by
@@ -594,10 +599,15 @@ class VQESolver:
         else:
             qb_freq_dict, qb_expect_dict = dict(), dict()
 
-        # Build state preparation circuit. If noiseless, simulate and save the statevector
+        # Build the state preparation circuit energy_estimation uses (reference override + ansatz + projective circuit).
+        # If noiseless, simulate and save the statevector
+        if ref_state is None:
+            ref_state = self.reference_circuit if self.ref_state is not None else Circuit()
         prep_circuit = ref_state + self.ansatz.circuit
+        if self.projective_circuit:
+            prep_circuit += self.projective_circuit
         if self.backend_options.get("noise_model") is None:
-            _, sv = self.backend.simulate(prep_circuit, return_statevector=True)
+            _, sv = self.backend.simulate(prep_circuit, return_statevector=True, **self.simulate_options)
 
         # Loop over each element of Hamiltonian (non-zero value)
         for key in self.molecule.fermionic_hamiltonian.terms:
